@@ -9,16 +9,22 @@ Local Open Scope Z_scope.
 (* d_ret is ghost state: the tasks handed out so far by get_task / steal_task, in order *)
 Record dg := MkDg { d_head : Z; d_tail : Z; d_lock : Z; d_pool : list Z; d_ret : list Z }.
 
+(* loop state of get_task: iso = isolation tag of the caller (0 = none), T0 = upper bound of the tasks to restore, om = tasks_omitted *)
 Inductive dpc :=
 | DIdle
 | SpLoadTail (t : Z) | SpStoreTail (t T : Z) | SpLoadPool | SpPublish
-| GtCheckPub | GtLoadTail | GtDecTail | GtLoadHead (T : Z)
-| AqCheckPub (T : Z) | AqLoad (T : Z) | AqCas (T : Z) | GtLoadHead2 (T : Z)
-| RsTail (T : Z) (take : bool) | RsHead (T : Z) (take : bool) | RsLeave (T : Z) (take : bool)
-| RlLoad (T : Z) | RlStore (T : Z)
+| GtCheckPub (iso : Z) | GtLoadTail (iso : Z) | GtDecTail (iso T0 : Z) (om : bool) | GtLoadHead (iso T0 : Z) (om : bool) (T : Z)
+| AqCheckPub (iso T0 : Z) (om : bool) (T : Z) | AqLoad (iso T0 : Z) (om : bool) (T : Z) | AqCas (iso T0 : Z) (om : bool) (T : Z)
+| GtLoadHead2 (iso T0 : Z) (om : bool) (T : Z)
+| RsTail (iso T0 : Z) (om : bool) (T H0 : Z) (take : bool) | RsHead (iso T0 : Z) (om : bool) (T H0 : Z) (take : bool)
+| RsLeave (iso T0 : Z) (om : bool) (T H0 : Z) (take : bool)
+| RlLoad (iso T0 : Z) (om : bool) (T : Z) | RlStore (iso T0 : Z) (om : bool) (T : Z)
+| EpHead (res H0 T0 : Z) | EpTail (res T0 : Z) | EpPub (res : Z) | EpHoleTail (res T0 : Z)
+| EpAdvFence (res : Z) | EpAdvLoad (res : Z)     (* arena::advertise_new_work<wakeup>: a fence and a load of the arena's pool state (not on the deque's variables) *)
 | LkLoad | LkCas | StLoadHead | StIncHead (H0 : Z) | StLoadTail (H0 H : Z) | StRestore (H0 : Z) | StUnlock (res : Z).
 
-(* owner script: list of (op, arg): 1 t = spawn task t (t >= 1) | 2 _ = get_task;  thief script: (3, _) = one steal attempt *)
+(* owner script: list of (op, arg): 1 t = spawn task t (t >= 1, isolation tag t / 100) | 2 iso = get_task with isolation tag iso (0 = none);
+   thief script: (3, _) = one steal attempt (no isolation: a thief may take any task) *)
 Record dl := mkdl { d_script : list (Z * Z); d_pc : dpc }.
 
 Definition VH := 1. Definition VT := 2. Definition VL := 3.
@@ -30,11 +36,37 @@ Definition dnote (tid : nat) (op res : Z) : list Z := [Z.of_nat tid; 0; 100 + op
 Definition pool_at (g : dg) (i : Z) : Z := nth (Z.to_nat i) (d_pool g) 0.
 Definition fin (tid : nat) (l : dl) (op res : Z) : dl * list Z := (mkdl (tl (d_script l)) DIdle, dnote tid op res).
 
+Definition tag_of (t : Z) : Z := t / 100.
+Definition give_to (r : Z) (g1 : dg) : dg :=
+  if r =? 0 then g1 else MkDg (d_head g1) (d_tail g1) (d_lock g1) (d_pool g1) (d_ret g1 ++ [r]).
+
+(* the end of get_task once the loop is left with result r: restore the bounds of the skipped tasks / make a hole *)
+Definition epilogue (tid : nat) (g : dg) (l : dl) (e : list Z) (r : Z) (om empty : bool) (T T0 H0 : Z) : dg * dl * list Z :=
+  if om then
+    if empty then
+      let H0' := if r =? 0 then H0 else H0 + 1 in
+      if H0' <? T0 then (g, mkdl (d_script l) (EpHead r H0' T0), e)
+      else let '(l', n) := fin tid l 2 r in (give_to r g, l', e ++ n)
+    else (* a task was obtained: hole at T, tail back to T0 *)
+      (MkDg (d_head g) (d_tail g) (d_lock g) (set_nth (d_pool g) (Z.to_nat T) 0) (d_ret g), mkdl (d_script l) (EpHoleTail r T0), e)
+  else let '(l', n) := fin tid l 2 r in (give_to r g, l', e ++ n).
+
+(* get_task_impl(T) followed by the loop test *)
+Definition after_impl (tid : nat) (g : dg) (l : dl) (e : list Z) (iso T0 : Z) (om : bool) (T : Z) (empty : bool) (H0 : Z) : dg * dl * list Z :=
+  let x := pool_at g T in
+  let omit := negb (x =? 0) && negb (iso =? 0) && negb (iso =? tag_of x) in
+  let r := if (x =? 0) || omit then 0 else x in
+  let om' := om || omit in
+  let T0' := if negb (r =? 0) || om' then T0 else T in
+  if negb (r =? 0) then epilogue tid g l e r om' empty T T0' H0
+  else if empty then epilogue tid g l e 0 om' true T T0' H0
+  else (g, mkdl (d_script l) (GtDecTail iso T0' om'), e).
+
 Definition dexec (tid : nat) (g : dg) (l : dl) (p : dpc) : dg * dl * list Z :=
   let stay q := mkdl (d_script l) q in
   let h := d_head g in let t := d_tail g in let k := d_lock g in let pl := d_pool g in
   let mkdg h t k pl := MkDg h t k pl (d_ret g) in
-  let give (r : Z) (g1 : dg) := if r =? 0 then g1 else MkDg (d_head g1) (d_tail g1) (d_lock g1) (d_pool g1) (d_ret g1 ++ [r]) in
+  let give := give_to in
   match p with
   | DIdle => (g, l, [])
   (* spawn *)
@@ -44,30 +76,38 @@ Definition dexec (tid : nat) (g : dg) (l : dl) (p : dpc) : dg * dl * list Z :=
                   if k =? 0 then (g, stay SpPublish, e) else let '(l', n) := fin tid l 1 0 in (g, l', e ++ n)
   | SpPublish => let '(l', n) := fin tid l 1 0 in (mkdg h t 2 pl, l', dev tid VL KStore ORel k 2 1 ++ n)
   (* get_task *)
-  | GtCheckPub => let e := dev tid VL KLoad ORlx k k 1 in
-                  if k =? 0 then let '(l', n) := fin tid l 2 0 in (g, l', e ++ n) else (g, stay GtLoadTail, e)
-  | GtLoadTail => (g, stay GtDecTail, dev tid VT KLoad ORlx t t 1)
-  | GtDecTail => (mkdg h (t - 1) k pl, stay (GtLoadHead (t - 1)), dev tid VT KSub OSeq t (t - 1) 1)
-  | GtLoadHead T => let e := dev tid VH KLoad OAcq h h 1 in
-                    if h >? T then (g, stay (AqCheckPub T), e)
-                    else let '(l', n) := fin tid l 2 (pool_at g T) in (give (pool_at g T) g, l', e ++ n)
-  | AqCheckPub T => let e := dev tid VL KLoad ORlx k k 1 in
-                    if k =? 0 then (g, stay (GtLoadHead2 T), e) else (g, stay (AqLoad T), e)
-  | AqLoad T => let e := dev tid VL KLoad ORlx k k 1 in
-                if k =? 1 then (g, stay (AqLoad T), e) else (g, stay (AqCas T), e)
-  | AqCas T => if k =? 2 then (mkdg h t 1 pl, stay (GtLoadHead2 T), dev tid VL KCas OSeq 2 1 1)
-               else (g, stay (AqLoad T), dev tid VL KCas OSeq k 1 0)
-  | GtLoadHead2 T => let e := dev tid VH KLoad ORlx h h 1 in
-                     if h >? T then (g, stay (RsTail T false), e)
-                     else if h =? T then (g, stay (RsTail T true), e)
-                     else (g, stay (RlLoad T), e)
-  | RsTail T tk => (mkdg h 0 k pl, stay (RsHead T tk), dev tid VT KStore ORlx t 0 1)
-  | RsHead T tk => (mkdg 0 t k pl, stay (RsLeave T tk), dev tid VH KStore ORlx h 0 1)
-  | RsLeave T tk => let '(l', n) := fin tid l 2 (if tk then pool_at g T else 0) in
-                    (give (if tk then pool_at g T else 0) (mkdg h t 0 pl), l', dev tid VL KStore ORlx k 0 1 ++ n)
-  | RlLoad T => let e := dev tid VL KLoad ORlx k k 1 in
-                if k =? 0 then let '(l', n) := fin tid l 2 (pool_at g T) in (give (pool_at g T) g, l', e ++ n) else (g, stay (RlStore T), e)
-  | RlStore T => let '(l', n) := fin tid l 2 (pool_at g T) in (give (pool_at g T) (mkdg h t 2 pl), l', dev tid VL KStore ORel k 2 1 ++ n)
+  | GtCheckPub iso => let e := dev tid VL KLoad ORlx k k 1 in
+                  if k =? 0 then let '(l', n) := fin tid l 2 0 in (g, l', e ++ n) else (g, stay (GtLoadTail iso), e)
+  | GtLoadTail iso => (g, stay (GtDecTail iso t false), dev tid VT KLoad ORlx t t 1)
+  | GtDecTail iso T0 om => (mkdg h (t - 1) k pl, stay (GtLoadHead iso T0 om (t - 1)), dev tid VT KSub OSeq t (t - 1) 1)
+  | GtLoadHead iso T0 om T => let e := dev tid VH KLoad OAcq h h 1 in
+                    if h >? T then (g, stay (AqCheckPub iso T0 om T), e)
+                    else after_impl tid g l e iso T0 om T false 0
+  | AqCheckPub iso T0 om T => let e := dev tid VL KLoad ORlx k k 1 in
+                    if k =? 0 then (g, stay (GtLoadHead2 iso T0 om T), e) else (g, stay (AqLoad iso T0 om T), e)
+  | AqLoad iso T0 om T => let e := dev tid VL KLoad ORlx k k 1 in
+                if k =? 1 then (g, stay (AqLoad iso T0 om T), e) else (g, stay (AqCas iso T0 om T), e)
+  | AqCas iso T0 om T => if k =? 2 then (mkdg h t 1 pl, stay (GtLoadHead2 iso T0 om T), dev tid VL KCas OSeq 2 1 1)
+               else (g, stay (AqLoad iso T0 om T), dev tid VL KCas OSeq k 1 0)
+  | GtLoadHead2 iso T0 om T => let e := dev tid VH KLoad ORlx h h 1 in
+                     if h >? T then (g, stay (RsTail iso T0 om T h false), e)
+                     else if h =? T then (g, stay (RsTail iso T0 om T h true), e)
+                     else (g, stay (RlLoad iso T0 om T), e)
+  | RsTail iso T0 om T H0 tk => (mkdg h 0 k pl, stay (RsHead iso T0 om T H0 tk), dev tid VT KStore ORlx t 0 1)
+  | RsHead iso T0 om T H0 tk => (mkdg 0 t k pl, stay (RsLeave iso T0 om T H0 tk), dev tid VH KStore ORlx h 0 1)
+  | RsLeave iso T0 om T H0 tk =>
+      let g1 := mkdg h t 0 pl in let e := dev tid VL KStore ORlx k 0 1 in
+      if tk then after_impl tid g1 l e iso T0 om T true H0
+      else epilogue tid g1 l e 0 om true T T0 H0           (* the thief has not backed off: nothing to grab *)
+  | RlLoad iso T0 om T => let e := dev tid VL KLoad ORlx k k 1 in
+                if k =? 0 then after_impl tid g l e iso T0 om T false 0 else (g, stay (RlStore iso T0 om T), e)
+  | RlStore iso T0 om T => after_impl tid (mkdg h t 2 pl) l (dev tid VL KStore ORel k 2 1) iso T0 om T false 0
+  | EpHead r H0 T0 => (mkdg H0 t k pl, stay (EpTail r T0), dev tid VH KStore ORlx h H0 1)
+  | EpTail r T0 => (mkdg h T0 k pl, stay (EpPub r), dev tid VT KStore ORlx t T0 1)
+  | EpPub r => (mkdg h t 2 pl, stay (EpAdvFence r), dev tid VL KStore ORel k 2 1)
+  | EpHoleTail r T0 => (mkdg h T0 k pl, stay (EpAdvFence r), dev tid VT KStore ORel t T0 1)
+  | EpAdvFence r => (g, stay (EpAdvLoad r), [])
+  | EpAdvLoad r => let '(l', n) := fin tid l 2 r in (give r g, l', n)
   (* steal_task *)
   | LkLoad => let e := dev tid VL KLoad ORlx k k 1 in
               if k =? 0 then let '(l', n) := fin tid l 3 0 in (g, l', e ++ n)
@@ -77,13 +117,15 @@ Definition dexec (tid : nat) (g : dg) (l : dl) (p : dpc) : dg * dl * list Z :=
   | StLoadHead => (g, stay (StIncHead h), dev tid VH KLoad ORlx h h 1)
   | StIncHead H0 => (mkdg (h + 1) t k pl, stay (StLoadTail H0 (h + 1)), dev tid VH KAdd OSeq h (h + 1) 1)
   | StLoadTail H0 H => let e := dev tid VT KLoad OAcq t t 1 in
-                       if H >? t then (g, stay (StRestore H0), e) else (g, stay (StUnlock (pool_at g (H - 1))), e)
+                       if H >? t then (g, stay (StRestore H0), e)
+                       else if pool_at g (H - 1) =? 0 then (g, stay (StIncHead H), e)      (* a hole: clean it up and go on *)
+                       else (g, stay (StUnlock (pool_at g (H - 1))), e)
   | StRestore H0 => (mkdg H0 t k pl, stay (StUnlock 0), dev tid VH KStore ORlx h H0 1)
   | StUnlock r => let '(l', n) := fin tid l 3 r in (give r (mkdg h t 2 pl), l', dev tid VL KStore ORel k 2 1 ++ n)
   end.
 
 Definition dfirst (o : Z * Z) : dpc :=
-  if fst o =? 1 then SpLoadTail (snd o) else if fst o =? 2 then GtCheckPub else LkLoad.
+  if fst o =? 1 then SpLoadTail (snd o) else if fst o =? 2 then GtCheckPub (snd o) else LkLoad.
 
 Definition dstep (tid : nat) (g : dg) (l : dl) : option (dg * dl * list Z) :=
   match d_pc l with
@@ -100,7 +142,8 @@ Definition dinit (owner : list (Z * Z)) (thieves : list nat) : dg * list dl :=
    mkdl owner DIdle :: map (fun n => mkdl (repeat (3, 0) n) DIdle) thieves).
 
 (* ---- flat interface: nthreads, owner script length, (op arg)*, then per thief its number of steals, -1, schedule ----
-   output: events of the schedule and of the round-robin completion, then -7, head, tail, lock word, 1/0 = all finished *)
+   output: events of the schedule and of the round-robin completion, then -7, head, tail, lock word, 1/0 = all finished,
+   number of tasks still in [head, tail) (holes excluded) *)
 Fixpoint dpairs (n : nat) (l : list Z) : list (Z * Z) * list Z :=
   match n with
   | O => ([], l)
@@ -114,6 +157,8 @@ Definition run_deque (inp : list Z) : list Z :=
       let sched := map Z.to_nat (match skipn (Z.to_nat nt - 1) rest with _ :: s => s | [] => [] end) in
       let '(c1, evs1) := run dstep (dinit owner thieves) sched in
       let '(c2, evs2, ok) := finish dstep 4000 c1 4000 in
-      evs1 ++ evs2 ++ [-7; d_head (fst c2); d_tail (fst c2); d_lock (fst c2); if ok then 1 else 0]
+      let g2 := fst c2 in
+      let live := length (filter (fun i => negb (pool_at g2 (d_head g2 + Z.of_nat i) =? 0)) (seq 0 (Z.to_nat (d_tail g2 - d_head g2)))) in
+      evs1 ++ evs2 ++ [-7; d_head g2; d_tail g2; d_lock g2; if ok then 1 else 0; Z.of_nat live]
   | _ => []
   end.
